@@ -173,6 +173,8 @@ impl TxPoolService {
         if self.should_notify_block_assembler() {
             match status {
                 TxStatus::Fresh => {
+                    #[cfg(feature = "verif-hooks")]
+                    crate::verif::work(2);
                     if self
                         .block_assembler_sender
                         .send(BlockAssemblerMessage::Pending)
@@ -183,6 +185,8 @@ impl TxPoolService {
                     }
                 }
                 TxStatus::Proposed => {
+                    #[cfg(feature = "verif-hooks")]
+                    crate::verif::work(2);
                     if self
                         .block_assembler_sender
                         .send(BlockAssemblerMessage::Proposed)
@@ -881,6 +885,10 @@ impl TxPoolService {
             tx_pool.clear(Arc::clone(&new_snapshot));
         }
         // reset block_assembler
+        #[cfg(feature = "verif-hooks")]
+        if self.block_assembler.is_some() {
+            crate::verif::work(2);
+        }
         if self
             .block_assembler_sender
             .send(BlockAssemblerMessage::Reset(new_snapshot))
